@@ -10,7 +10,8 @@ from .e2e import generate_client
 SCHEMA = """
 enum Color { RED GREEN }
 input Inner { n: Int = 7 tag: String }
-input Filter { color: Color inner: Inner ids: [ID!] maybe: [Int] className: String modelDump: String modelFields: Int copy: Int }
+input _Cmp { _eq: String _in: [String!] }
+input Filter { color: Color inner: Inner ids: [ID!] maybe: [Int] className: String modelDump: String modelFields: Int copy: Int cmp: _Cmp }
 type Query { q(a: Int, b: [Int]!, c: [Int!], m: [[Int]], f: Filter, fs: [Filter], query: String, data: Int, _query: String, className: String): Int }
 """
 QUERIES = """
@@ -83,6 +84,8 @@ def run_cases():
              dict(f=it.Filter(class_name="  padded note\n", inner=it.Inner(tag="  ")), fs=[it.Filter(class_name="\ttab ")]),
              {"f": {"className": "  padded note\n", "inner": {"tag": "  ", "n": 7}}, "fs": [{"className": "\ttab "}]})
         case("all-values-falsy-are-still-sent", "plain", dict(b=[], a=0, c=[]), {"b": [], "a": 0, "c": []})
+        case("input-type-named-with-a-leading-underscore", "with_input", dict(f=it.Filter(cmp=getattr(it, "_Cmp")(**{"_eq": "x", "_in": ["a"]}))),
+             {"f": {"cmp": {"_eq": "x", "_in": ["a"]}}})
         case("argument-named-like-a-method-local", "clash", dict(query="needle", data=3), {"query": "needle", "data": 3})
         case("camel-case-variable", "keyword", dict(class_name="c"), {"className": "c"})
         case("variable-that-becomes-a-method-local-after-snake-casing", "capital", dict(query="needle", data=4), {"Query": "needle", "DATA": 4})
